@@ -372,16 +372,18 @@ fn main() {
     let args: Vec<String> = std::env::args().skip(1).collect();
     let mut ctx = Ctx::new("C12", &args);
     ctx.rule(
-        "enum: every operation sequence over {Wk = poll_write of k in {1,2,cap,cap+1} bytes, Rn = poll_read into a buffer with n in \
-         {0,1,2,cap} bytes of room, F = poll_flush, S = poll_shutdown, DW/DR = drop writer/reader} up to the depth bound, for capacities \
+        "enum: every operation sequence over {Wk = poll_write of k in {1,2,cap,cap+1} bytes, Wv1+0+cap = poll_write_vectored of three \
+         slices, Rn = poll_read into a buffer with n in {0,1,2,cap} bytes of room, F = poll_flush, S = poll_shutdown, DW/DR = drop \
+         writer/reader} up to the depth bound (quick: 8 for budget 64, 7 for budgets 2 and 3), for capacities \
          1..4 and cooperative budgets {64 (never exhausted), 2, 3 (the task is re-polled, i.e. the budget reset, after every Pending)}, is \
          executed from scratch on the real channel with counting wakers and compared step by step with a FIFO model (written bytes are a \
          position pattern, so loss/duplication/reordering is visible); one runner case is the subtree under a 3-op prefix; \
          evaluations/distinct_nontrivial/classes are counted PER EXECUTED SEQUENCE (maximal sequences, or sequences cut at their first \
          failing step; every shorter sequence is a checked prefix of one of them; sequences in different subtrees are distinct by \
          construction). Every run whose writer is closed and reader alive ends with a drain to end-of-stream. random: proptest sequences \
-         to length 200, capacities to 64, sizes 0..cap+1, pre-filled read buffers, fresh wakers, explicit budget resets (B), budgets 1..20 \
-         and 64. threads: a writer thread and a reader thread (each parks on its own waker) move a generated amount of data through the \
+         to length 200, capacities to 64, sizes 0..cap+1, vectored writes of 1-4 slices, pre-filled read buffers, fresh wakers, explicit \
+         budget resets (B), budgets 1..20 and 64. random-large: the same with capacities 4095..65537 (and random to 70000), single \
+         operations around cap / 4096 / 8192 / 16384 / 65536 (+-1), length <= 40, budgets mostly 2..5. threads: a writer thread and a reader thread (each parks on its own waker) move a generated amount of data through the \
          real channel; a monitor detects the state in which both are parked with unwoken wakers (lost wake-up = deadlock). A sequence is \
          non-trivial when EACH side parked at least once (its poll returned Pending because the channel was full / empty).",
     );
